@@ -1,4 +1,8 @@
 import BoltonsVerif.C05.Script
+import BoltonsVerif.C05.AcceptProofs
+import BoltonsVerif.C05.AcceptMore
+import BoltonsVerif.C05.AcceptHist
+import BoltonsVerif.C05.AcceptRef
 import BoltonsVerif.C04.Props
 import BoltonsVerif.Generated.C05_Consts
 /-
@@ -410,5 +414,422 @@ example : out {} bodyEx (failAt 7 1002) fsEx 1 = .osErr 1002 ∧ (fin {} bodyEx 
 -- a block that flushes in between completes
 example : out {} ⟨[.write [78] 0, .flush, .write [69] 0], false⟩ noFaults fsEx 1 = .ok ∧
     noCloseOps [Op.write [78] 0, .flush, .write [69] 0] = true := by decide
+
+/-! ## The acceptance tie: every ACCEPTED observed trace has the C05 guarantees
+
+The theorems above are about the transliteration `runScript`.  The theorems below do not mention it:
+they are about ANY trace of observations (`Obs`: successful calls classified by their effect, calls
+that reported an error, the other process's move) that the decidable predicate `Accept` accepts and
+that can be executed (`replay`) from an arbitrary initial state `fs0` - whatever sequence of calls
+the implementation chose.  The check evaluates `Accept` and `replay` on the trace recorded from the
+real `atomic_save` in every case (C05.Driver) and compares the replayed file system with the real one.
+
+`t` the observed trace, `raises` = the with-block ended by raising, `ok` = the caller saw no
+exception, `content` = the bytes the block wrote, `m` = the machine state after the replay. -/
+
+-- (`Observed cfg raises ok content fs0 e t m` := `Accept … t = true` ∧ `replay (M.start fs0 e) t = some m`, see AcceptHist.lean)
+
+/-- **An accepted save that is not published leaves the destination exactly as it was** (or, if another
+    process created it meanwhile, exactly that process's file) -/
+theorem accepted_preserves_dest (cfg : Cfg) (raises ok : Bool) (content : Bytes) (fs0 : FS) (e : Nat) (t : List Obs) (m : M)
+    (hst : Start fs0 e) (h : Observed cfg raises ok content fs0 e t m) (hnp : publishes (oks t) = false) :
+    (m.envDone = false → m.fs.readDest = fs0.readDest ∧ m.fs.destMode = fs0.destMode) ∧
+    (m.envDone = true → fs0.dir.dest = none ∧ m.fs.readDest = some envBytes ∧ m.fs.destMode = some envMode) := by
+  obtain ⟨a, _, _, r, _, hp⟩ := h.rj
+  have hei : m.envIno = e := by
+    have : ∀ (t : List Obs) (m1 m2 : M), replay m1 t = some m2 → m2.envIno = m1.envIno := by
+      intro t
+      induction t with
+      | nil => intro m1 m2 hm; simp [replay] at hm; subst hm; rfl
+      | cons o t ih =>
+        intro m1 m2 hm
+        simp only [replay] at hm
+        cases h2 : replayStep m1 o with
+        | none => simp [h2] at hm
+        | some m3 =>
+          simp only [h2] at hm
+          rw [ih m3 m2 hm]
+          cases o with
+          | ok ev =>
+            simp only [replayStep] at h2
+            split at h2
+            · rename_i m4 hx
+              simp at h2; subst h2
+              unfold exe at hx
+              split at hx <;> simp at hx
+              subst hx; rfl
+            · simp at h2
+          | fail l i u => simp [replayStep] at h2; subst h2; rfl
+          | failClosed l =>
+            simp only [replayStep] at h2
+            split at h2
+            · rename_i m4 hx
+              simp at h2; subst h2
+              unfold exe at hx
+              split at hx <;> simp at hx
+              subst hx; rfl
+            · simp at h2
+          | appear => simp [replayStep] at h2; subst h2; exact (env_fields m1 .appear).2.2.2.2
+    simpa [M.start] using this t _ m h.run
+  have hd := r.j.dest (by rw [hp]; exact hnp)
+  constructor
+  · intro he
+    simp only [he, Bool.false_eq_true, if_false] at hd
+    have : m.fs.inode? m.fs.dir.dest = fs0.inode? fs0.dir.dest := by
+      simp only [hd, FS.inode?]
+      cases hdd : fs0.dir.dest with
+      | none => rfl
+      | some i => exact old_inode r.j i (hst.wf.1 i hdd)
+    simp only [FS.readDest, FS.destMode, this, and_self]
+  · intro he
+    simp only [he, if_true] at hd
+    have h1 : m.fs.inode? m.fs.dir.dest = some envInode := by
+      simp only [hd, FS.inode?, hei]
+      rw [old_inode r.j e hst.elt, hst.eino]
+    refine ⟨r.j.envd he, ?_, ?_⟩
+    · simp [FS.readDest, h1, envInode, Inode.cache]
+    · simp [FS.destMode, h1, envInode]
+
+/-- **Failure is reported**: an accepted trace whose caller saw no exception is a completed save -
+    published, no listed step failed before the publication, the block did not raise, and the part
+    name is gone -/
+theorem accepted_failure_reported (cfg : Cfg) (raises : Bool) (content : Bytes) (fs0 : FS) (e : Nat) (t : List Obs) (m : M)
+    (h : Observed cfg raises true content fs0 e t m) :
+    publishes (oks t) = true ∧ failedBefore t = false ∧ raises = false ∧ m.fs.dir.part = none := by
+  obtain ⟨a, ha, hend, r, _, hp⟩ := h.rj
+  obtain ⟨hdone, hnf, hnr⟩ := (accEnd_spec _ _ _ _ _ _ _ _ hend).1 rfl
+  have hpub : a.s.published = true := by simp [St.published, hdone]
+  refine ⟨by rw [← hp]; exact hpub, ?_, hnr, ginv_part_none _ _ a.s _ _ r.j.inv (Or.inr hdone)⟩
+  cases hfb : failedBefore t with
+  | false => rfl
+  | true =>
+    have := (A_run_flags cfg raises t A.init a ha).2.2 (by decide) hfb
+    rw [hnf] at this; cases this
+
+/-- **Every trigger blocks the publication**: if the with-block raised, or one of the listed steps
+    (creating or chmod-ing the part file, write, flush, fsync, close, link / rename) reported an
+    error, an accepted trace contains no publication and the caller saw an exception -/
+theorem accepted_trigger_unpublished (cfg : Cfg) (raises ok : Bool) (content : Bytes) (fs0 : FS) (e : Nat) (t : List Obs) (m : M)
+    (h : Observed cfg raises ok content fs0 e t m) (htrig : raises = true ∨ failedBefore t = true) :
+    publishes (oks t) = false ∧ ok = false := by
+  obtain ⟨a, ha, hend, r, _, hp⟩ := h.rj
+  have hunp : a.s.published = false := by
+    rcases htrig with hr | hf
+    · exact r.raised hr
+    · exact r.failed ((A_run_flags cfg raises t A.init a ha).2.2 (by decide) hf)
+  refine ⟨by rw [← hp]; exact hunp, ?_⟩
+  cases hok : ok with
+  | false => rfl
+  | true =>
+    subst hok
+    have := (accepted_failure_reported cfg raises content fs0 e t m h).1
+    rw [← hp, hunp] at this; cases this
+
+/-- **Refusal** (`overwrite=False`): if the destination exists at entry, or another process creates it
+    at any point before completion, an accepted trace contains no publication and the caller saw an
+    exception (so, by `accepted_preserves_dest`, the destination is untouched / the other process's file) -/
+theorem accepted_refusal (cfg : Cfg) (raises ok : Bool) (content : Bytes) (fs0 : FS) (e : Nat) (t : List Obs) (m : M)
+    (h : Observed cfg raises ok content fs0 e t m) (how : cfg.overwrite = false)
+    (hd : fs0.dir.dest ≠ none ∨ m.envDone = true) :
+    publishes (oks t) = false ∧ ok = false := by
+  obtain ⟨a, ha, hend, r, htr, hp⟩ := h.rj
+  have hunp : publishes (oks t) = false := by
+    cases hpp : publishes (oks t) with
+    | false => rfl
+    | true =>
+      exfalso
+      rcases publishes_mem _ hpp with hm | hm
+      · exact r.norename how (by rw [htr]; exact hm)
+      · have hl : Ev.linkPartDest ∈ m.tr := by rw [htr]; exact hm
+        rcases hd with hd | hd
+        · exact hd (r.linked hl)
+        · have := r.j.lenv hl
+          rw [hd] at this; cases this
+  refine ⟨hunp, ?_⟩
+  cases hok : ok with
+  | false => rfl
+  | true =>
+    subst hok
+    have := (accepted_failure_reported cfg raises content fs0 e t m h).1
+    rw [hunp] at this; cases this
+
+/-- **Cleanup**: after an accepted failed save with `rm_part_on_exc`, unless the plan made an unlink of
+    the part file fail, either no part file is left, or this save never created one (inode table
+    untouched, the part name as at the start - or removed by `overwrite_part`) -/
+theorem accepted_part_removed (cfg : Cfg) (raises : Bool) (content : Bytes) (fs0 : FS) (e : Nat) (t : List Obs) (m : M)
+    (h : Observed cfg raises false content fs0 e t m) (hrm : cfg.rmPartOnExc = true) (hcf : unlinkFaulted t = false) :
+    m.fs.dir.part = none ∨ (m.fs.inodes = fs0.inodes ∧ (m.fs.dir.part = fs0.dir.part ∨ cfg.overwritePart = true)) := by
+  obtain ⟨a, ha, hend, r, _, _⟩ := h.rj
+  have huf : a.ufail = false := by
+    have := (A_run_flags cfg raises t A.init a ha).1
+    simpa [A.init, hcf] using this
+  have hph := (accEnd_spec _ _ _ _ _ _ _ _ hend).2.1 rfl hrm huf
+  rcases hph with h0 | hab | hdn
+  · right
+    have hino : m.fs.inodes = fs0.inodes := ginv_init_inodes _ _ _ _ r.j.inv h0
+    refine ⟨hino, ?_⟩
+    by_cases hu : Ev.unlinkPart ∈ m.tr
+    · right
+      cases hop : cfg.overwritePart with
+      | true => rfl
+      | false => exact absurd hu (r.nounlink hop h0)
+    · exact Or.inl ((r.j.pinit h0).1 hu)
+  · exact Or.inl (ginv_part_none _ _ a.s _ _ r.j.inv (Or.inl hab))
+  · exact Or.inl (ginv_part_none _ _ a.s _ _ r.j.inv (Or.inr hdn))
+
+/-- **A pre-existing part file is never reused or overwritten unless `overwrite_part` is set**: in an
+    accepted trace the caller saw an exception, the part name still points to the same inode and the
+    inode table is untouched (nothing was created or written) -/
+theorem accepted_existing_part_untouched (cfg : Cfg) (raises ok : Bool) (content : Bytes) (fs0 : FS) (e : Nat) (t : List Obs) (m : M)
+    (i : Nat) (h : Observed cfg raises ok content fs0 e t m) (hop : cfg.overwritePart = false) (hpart : fs0.dir.part = some i) :
+    ok = false ∧ m.fs.dir.part = some i ∧ m.fs.inodes = fs0.inodes ∧ publishes (oks t) = false := by
+  obtain ⟨a, ha, hend, r, _, hp⟩ := h.rj
+  have h0 : a.s.phase = .init := r.stale hop (by rw [hpart]; simp)
+  have hunp : a.s.published = false := by simp [St.published, h0]
+  have hino : m.fs.inodes = fs0.inodes := ginv_init_inodes _ _ _ _ r.j.inv h0
+  refine ⟨?_, by rw [(r.j.pinit h0).1 (r.nounlink hop h0), hpart], hino, by rw [← hp]; exact hunp⟩
+  cases hok : ok with
+  | false => rfl
+  | true =>
+    subst hok
+    have := (accepted_failure_reported cfg raises content fs0 e t m h).1
+    rw [← hp, hunp] at this; cases this
+
+/-- **A published destination holds exactly the bytes the block wrote** -/
+theorem accepted_content (cfg : Cfg) (raises ok : Bool) (content : Bytes) (fs0 : FS) (e : Nat) (t : List Obs) (m : M)
+    (h : Observed cfg raises ok content fs0 e t m) (hpub : publishes (oks t) = true) :
+    m.fs.readDest = some content ∧ raises = false := by
+  obtain ⟨a, ha, hend, r, htr, hp⟩ := h.rj
+  have hsp : a.s.published = true := by rw [hp]; exact hpub
+  have hr : raises = false := by
+    cases hh : raises with
+    | false => rfl
+    | true => have := r.raised hh; rw [hsp] at this; cases this
+  have hcontent := (accEnd_spec _ _ _ _ _ _ _ _ hend).2.2.1 hsp
+  refine ⟨?_, hr⟩
+  have hi := r.j.inv
+  rw [htr, hcontent] at hi
+  obtain ⟨d1, x, d4, d5, d6⟩ := ginv_pub _ _ _ _ hi hsp
+  simp [FS.readDest, FS.inode?, d1, d4, Inode.cache, d5, d6]
+
+/-- **Permissions of a published destination**: explicit `file_perms`, else those of the replaced
+    file, else `0o666 & ~umask` (no interference by another process) -/
+theorem accepted_perms (cfg : Cfg) (raises ok : Bool) (content : Bytes) (fs0 : FS) (e : Nat) (t : List Obs) (m : M)
+    (h : Observed cfg raises ok content fs0 e t m) (hpub : publishes (oks t) = true) (hne : hasAppear t = false) :
+    m.fs.destMode = some (expectedPerms cfg fs0) := by
+  obtain ⟨a, ha, hend, r, htr, hp⟩ := h.rj
+  have hsp : a.s.published = true := by rw [hp]; exact hpub
+  have henv : a.env = false := by
+    have := (A_run_flags cfg raises t A.init a ha).2.1
+    simpa [A.init, hne] using this
+  have hmode := (accEnd_spec _ _ _ _ _ _ _ _ hend).2.2.2 hsp henv
+  have hph : a.s.phase ≠ .init := by intro h; simp [St.published, h] at hsp
+  obtain ⟨x, hx, _⟩ := ginv_shape _ _ a.s _ _ r.j.inv hph
+  have hm := r.j.mode hph x hx
+  rw [htr, hmode] at hm
+  have hdest : m.fs.dir.dest = some fs0.inodes.length := (ginv_pub _ _ _ _ r.j.inv hsp).1
+  have : m.fs.destMode = some x.mode := by simp [FS.destMode, FS.inode?, hdest, hx]
+  rw [this, hm]
+  rfl
+
+/-- **Crash safety of what was observed**: the successful events of an accepted trace satisfy C04's
+    `SafeTrace` (so `C04.safeTrace_crash_safe` applies to every observed faulty run) -/
+theorem accepted_trace_safe (cfg : Cfg) (raises ok : Bool) (content : Bytes) (um : Nat) (dm0 : Option Nat) (t : List Obs)
+    (h : Accept cfg raises ok content um dm0 t = true) : SafeTrace (oks t) = true := by
+  unfold Accept at h
+  cases ha : A.init.run cfg raises t with
+  | none => simp [ha] at h
+  | some a =>
+    have := A_run_st cfg raises t A.init a ha
+    simp only [A.init] at this
+    simp [SafeTrace, this]
+
+/-- **The replay is C04's `exec`**: without interference the file system reached by replaying an
+    observed trace is `C04.exec` of its successful events (calls that reported an error change nothing) -/
+theorem accepted_replay_is_exec (fs0 : FS) (e : Nat) (t : List Obs) (m : M)
+    (hne : hasAppear t = false) (hrun : replay (M.start fs0 e) t = some m) :
+    exec fs0 (oks t) = some m.fs := by
+  have := replay_X fs0 t _ m hne (by simp [X, M.start, exec]) hrun
+  have htr : m.tr = oks t := by simpa [M.start] using replay_tr t _ m hrun
+  rw [← htr]; exact this
+
+/-- **Retry**: the state an accepted failed save leaves behind (with `rm_part_on_exc`, no unlink of the
+    part file made to fail, the part name free at the start or `overwrite_part`, and the destination
+    writable) is one from which a fault-free save completes with the full new content and no part file -/
+theorem accepted_retry_ready (cfg : Cfg) (raises : Bool) (content : Bytes) (fs0 : FS) (e : Nat) (t : List Obs) (m : M)
+    (sc2 : Script) (h : Observed cfg raises false content fs0 e t m) (hrm : cfg.rmPartOnExc = true)
+    (hcf : unlinkFaulted t = false) (hpart : fs0.dir.part = none ∨ cfg.overwritePart = true)
+    (hdest : m.fs.dir.dest = none ∨ cfg.overwrite = true) (hr2 : sc2.raises = false) (hnc2 : noCloseOps sc2.ops = true) :
+    out cfg sc2 noFaults m.fs e = .ok ∧ (fin cfg sc2 noFaults m.fs e).fs.readDest = some sc2.content ∧
+    (fin cfg sc2 noFaults m.fs e).fs.dir.part = none := by
+  have hp2 : m.fs.dir.part = none ∨ cfg.overwritePart = true := by
+    rcases accepted_part_removed cfg raises content fs0 e t m h hrm hcf with h | ⟨_, h | h⟩
+    · exact Or.inl h
+    · rcases hpart with hp | hp
+      · exact Or.inl (h.trans hp)
+      · exact Or.inr hp
+    · exact Or.inr h
+  have hok := runScript_nofault_ok cfg m.fs e sc2 noFaults (fun _ => rfl) hp2 hdest hr2 hnc2
+  obtain ⟨h1, _, _, h4⟩ := failure_is_reported cfg sc2 noFaults _ e hok
+  exact ⟨hok, (published_content cfg sc2 noFaults _ e h1).1, h4⟩
+
+
+/-- hence a crash at ANY point of ANY accepted observed run is safe: for every prefix of the successful
+    events and both crash semantics the destination reads the old state or the complete new content
+    (`C04.safeTrace_crash_safe` applied to `accepted_trace_safe`) -/
+theorem accepted_crash_safe (cfg : Cfg) (raises ok : Bool) (content : Bytes) (fs0 : FS) (t : List Obs)
+    (hacc : Accept cfg raises ok content fs0.umask fs0.destMode t = true)
+    (hwf : fs0.WF) (hh : fs0.hist = []) (hsy : DestSynced fs0) :
+    ∀ p q fs, oks t = p ++ q → exec fs0 p = some fs →
+      (fs.destAfterProcCrash = fs0.readDest ∨ fs.destAfterProcCrash = some (allWrites (oks t))) ∧
+      (∀ r, fs.PowerDest r → r = fs0.readDest ∨ r = some (allWrites (oks t))) ∧
+      (publishes p = false → fs.destAfterProcCrash = fs0.readDest ∧ ∀ r, fs.PowerDest r → r = fs0.readDest) := by
+  intro p q fs ht hx
+  have := safeTrace_crash_safe fs0 _ hwf hh hsy (accepted_trace_safe cfg raises ok content _ _ t hacc) p q fs ht hx
+  exact ⟨this.1, this.2.1, this.2.2.1⟩
+
+/-- **The fault-free runs of the transliteration are accepted**: for every configuration, initial state
+    and write-only with-block, the events `runScript` performs without faults (`nofault_trace_is_saverTrace`)
+    form an accepted trace - as a completed save when the block does not raise, as a failed one when it
+    does.  (`Accept` is satisfiable in every configuration, and the theorems about `runScript` and the
+    `accepted_*` theorems speak about the same runs there.) -/
+theorem nofault_runs_are_accepted (cfg : Cfg) (fs0 : FS) (body : Body) :
+    Accept cfg body.raises (!body.raises) (newContent body) fs0.umask fs0.destMode
+      ((saverTrace cfg fs0 body).map Obs.ok) = true :=
+  saverTrace_accepted cfg fs0 body
+
+/-! ### histories of saves on the same directory -/
+
+/-- **The state an accepted save leaves behind is a legitimate starting state**: well-formed, the
+    bookkeeping inode untouched - so every `accepted_*` theorem applies to the NEXT save on the same
+    directory (the retry, the same `AtomicSaver` object used again, another saver) -/
+theorem accepted_next_start (cfg : Cfg) (raises ok : Bool) (content : Bytes) (fs0 : FS) (e : Nat) (t : List Obs) (m : M)
+    (hst : Start fs0 e) (h : Observed cfg raises ok content fs0 e t m) (hne : hasAppear t = false) : Start m.fs e :=
+  h.next_start hst hne
+
+/-- **Any number of failed saves in a row leave the destination as it was**: in a history of accepted
+    saves (each started in the state its predecessor left; any configurations, any faults) none of which
+    is published, the destination has at the end exactly the bytes and mode it had at the start -/
+theorem history_of_failures_preserves_dest (e : Nat) (fs0 fs : FS) (saves : List SaveObs)
+    (hst : Start fs0 e) (h : History e fs0 saves fs) (hnp : ∀ s ∈ saves, publishes (oks s.t) = false) :
+    fs.readDest = fs0.readDest ∧ fs.destMode = fs0.destMode :=
+  h.unpublished_dest hst hnp
+
+/-- **The destination always holds the content of the last completed save**: in a history of accepted
+    saves `pre ++ [s] ++ post` where `s` is published and none of `post` is, the destination holds at the
+    end exactly the bytes written by `s`'s block - whatever failed in the saves after it -/
+theorem history_last_completed_save_wins (e : Nat) (fs0 fs : FS) (pre post : List SaveObs) (s : SaveObs)
+    (hst : Start fs0 e) (h : History e fs0 (pre ++ s :: post) fs) (hpub : publishes (oks s.t) = true)
+    (hnp : ∀ x ∈ post, publishes (oks x.t) = false) : fs.readDest = some s.content := by
+  obtain ⟨mid, h1, h2⟩ := History.split pre (s :: post) fs0 fs h
+  have hmid := h1.start hst
+  cases h2 with
+  | cons _ _ m _ _ hobs hne hrest =>
+    have hs := hobs.next_start hmid hne
+    rw [(hrest.unpublished_dest hs hnp).1]
+    exact hobs.published_dest hpub
+
+/-! ### the two layers meet -/
+
+/-- **Every run of the transliteration is an accepted trace.**  For every configuration, initial state,
+    with-block script (any sequence of write / flush / close calls, raising or not) and EVERY fault plan
+    (any number of failing calls, any errno or exception class; no other process interfering, no injected
+    ENOENT - which `os.stat` answers by "absent"): what `runScript` records of its own calls (`M.obs`: every
+    call that went through with its effect, every call that reported an error with its flags) is a trace
+    that `Accept` accepts - outside the one region excluded throughout (overwrite=False: the `link`
+    succeeded and the `unlink` of the part file after it failed, i.e. an exception although published).
+    So `Accept` is satisfiable under arbitrary faults, and the `accepted_*` theorems apply to the very runs
+    the theorems about `runScript` speak of.  (The check compares `M.obs` token by token with the trace
+    recorded on the real code in every case.) -/
+theorem transliteration_runs_are_accepted (cfg : Cfg) (sc : Script) (plan : Plan) (fs0 : FS) (e : Nat)
+    (hne : ∀ k, plan k ≠ .appear) (hnn : ∀ k, plan k ≠ .fail ENOENT)
+    (hreg : out cfg sc plan fs0 e = .ok ∨ (fin cfg sc plan fs0 e).published = false) :
+    Accept cfg sc.raises (decide (out cfg sc plan fs0 e = .ok)) sc.content fs0.umask fs0.destMode
+      (fin cfg sc plan fs0 e).obs = true :=
+  runScript_accepted cfg sc plan fs0 e hne hnn hreg
+
+/-- for EVERY plan (interference included) the recorded observations are faithful bookkeeping: their
+    successful events are the recorded events (up to calls without effect), a listed failure is counted
+    as an error, a cleanup unlink that the plan made fail shows as such, and `appear` is recorded exactly
+    when the other process acted -/
+theorem transliteration_observations_faithful (cfg : Cfg) (sc : Script) (plan : Plan) (fs0 : FS) (e : Nat) :
+    (oks (fin cfg sc plan fs0 e).obs).filter notNoop = (fin cfg sc plan fs0 e).tr.filter notNoop ∧
+    (listedFailed (fin cfg sc plan fs0 e).obs = true → 0 < (fin cfg sc plan fs0 e).errs) ∧
+    ((fin cfg sc plan fs0 e).cleanupFaulted = true → unlinkFaulted (fin cfg sc plan fs0 e).obs = true) ∧
+    hasAppear (fin cfg sc plan fs0 e).obs = (fin cfg sc plan fs0 e).envDone :=
+  let t := runScript_T cfg sc plan fs0 e
+  ⟨t.oks, t.lf, t.cf, t.env⟩
+
+/-- **Without `overwrite_part` the transliteration never removes a part file it did not create**: under
+    every plan no unlink of the part file precedes its creation -/
+theorem no_unlink_before_creation (cfg : Cfg) (sc : Script) (plan : Plan) (fs0 : FS) (e : Nat)
+    (hop : cfg.overwritePart = false) : headUnlink (fin cfg sc plan fs0 e).tr = false :=
+  runScript_headUnlink cfg sc plan fs0 e hop
+
+/-- **Probes are free**: observations without effect on the automaton - successful calls without effect
+    on the two names (stat, lstat, fdopen, fcntl, close of a closed object ...) and calls that failed on
+    their own without being a listed step (an `unlink` / `stat` answering ENOENT) - can be inserted or
+    removed anywhere without changing the verdict: how many probes an implementation makes, and where,
+    is not constrained -/
+theorem accept_ignores_probes (cfg : Cfg) (raises ok : Bool) (content : Bytes) (um : Nat) (dm0 : Option Nat) (t : List Obs) :
+    Accept cfg raises ok content um dm0 (dropProbes t) = Accept cfg raises ok content um dm0 t :=
+  accept_dropProbes cfg raises ok content um dm0 t
+
+/-- translator obligation (regenerated from the current source on every run): inside `AtomicSaver`,
+    `atomic_save`, `atomic_rename`, `replace` and `set_cloexec` there is no call by which the file
+    system or the process state could be changed behind the recorder's back (os.sendfile, os.umask,
+    os.chdir, shutil.*, pathlib.*, tempfile.*, subprocess.* ...): the observed traces are complete -/
+theorem source_calls_are_recorded : Gen.unseenCalls = [] := by decide
+
+/-! ### non-vacuity of the acceptance theorems: concrete observed traces -/
+
+/-- what the code does for a plain save over an existing file (mode 0o640) when `os.fsync` is made to fail:
+    stat, open, fdopen, chmod, two writes, flush, fsync FAILS, close, unlink of the part file -/
+def obsFsyncFails : List Obs :=
+  [.ok .noop, .ok (.openPart true true 0o640), .ok .noop, .ok (.chmodPart 0o640), .ok (.write [78, 69] 0),
+   .ok (.write [87] 0), .ok .flush, .fail true true false, .ok .close, .ok .unlinkPart]
+/-- a completed save written differently: no probe at all, the permissions set through the descriptor
+    BEFORE `fdopen`, an extra (failing, tolerated) unlink of a part file that is not there -/
+def obsOtherOrder : List Obs :=
+  [.fail false false true, .ok (.openPart true true 0o640), .ok (.chmodPart 0o640), .ok .noop, .ok (.write [78, 69] 0),
+   .ok (.write [87] 0), .ok .flush, .ok .fsync, .ok .close, .ok .renamePartDest]
+
+example : Accept {} false false [78, 69, 87] 0o022 (some 0o640) obsFsyncFails = true := by decide
+example : dropProbes obsFsyncFails = [.ok (.openPart true true 0o640), .ok (.chmodPart 0o640), .ok (.write [78, 69] 0),
+   .ok (.write [87] 0), .ok .flush, .fail true true false, .ok .close, .ok .unlinkPart] := by decide
+example : (replay (M.start fsEx 1) obsFsyncFails).isSome = true ∧ failedBefore obsFsyncFails = true ∧
+    unlinkFaulted obsFsyncFails = false ∧ publishes (oks obsFsyncFails) = false := by decide
+example : Accept {} false true [78, 69, 87] 0o022 (some 0o640) obsOtherOrder = true ∧
+    (replay (M.start fsEx 1) obsOtherOrder).isSome = true ∧ publishes (oks obsOtherOrder) = true ∧
+    hasAppear obsOtherOrder = false := by decide
+-- the transliteration's own record of the run in which fsync fails (fsEx: destination present, mode 0o640) is the
+-- trace `obsFsyncFails` above - and it is accepted; the excluded region is not empty
+example : (fin {} bodyEx (failAt 7 5) fsEx 1).obs = obsFsyncFails ∧
+    (fin {} bodyEx (failAt 7 5) fsEx 1).published = false := by decide
+example : out { overwrite := false, overwritePart := true } bodyEx (failAt 10 1) fsEx2 1 ≠ .ok ∧
+    (fin { overwrite := false, overwritePart := true } bodyEx (failAt 10 1) fsEx2 1).published = true := by decide
+-- a history: the save whose fsync fails, then the completed one (from the state the first left)
+def mEx1 : M := (replay (M.start fsEx 1) obsFsyncFails).get (by decide)
+def mEx2 : M := (replay (M.start mEx1.fs 1) obsOtherOrder).get (by decide)
+example : History 1 fsEx [⟨{}, false, false, [78, 69, 87], obsFsyncFails⟩, ⟨{}, false, true, [78, 69, 87], obsOtherOrder⟩] mEx2.fs :=
+  History.cons fsEx _ mEx1 _ _ ⟨by decide, by simp [mEx1]⟩ (by decide)
+    (History.cons mEx1.fs _ mEx2 _ _ ⟨by decide, by simp [mEx2]⟩ (by decide) (History.nil _))
+example : mEx1.fs.readDest = some [79, 76, 68] ∧ mEx2.fs.readDest = some [78, 69, 87] ∧ mEx2.fs.destMode = some 0o640 := by decide
+-- rejected: publication after the failed fsync; a silent failure; the part file left behind; a `rename` with
+-- overwrite=False; a stale part file removed without overwrite_part; wrong permission bits; content that is not the block's
+example : Accept {} false true [78, 69, 87] 0o022 (some 0o640)
+    (obsFsyncFails.take 9 ++ [.ok .renamePartDest]) = false := by decide
+example : Accept {} false true [78, 69, 87] 0o022 (some 0o640) obsFsyncFails = false := by decide
+example : Accept {} false false [78, 69, 87] 0o022 (some 0o640) (obsFsyncFails.take 9) = false := by decide
+example : Accept { overwrite := false } false true [78, 69, 87] 0o022 none obsOtherOrder = false := by decide
+example : Accept {} false true [78, 69, 87] 0o022 (some 0o640) (.ok .unlinkPart :: obsOtherOrder) = false ∧
+    Accept { overwritePart := true } false true [78, 69, 87] 0o022 (some 0o640) (.ok .unlinkPart :: obsOtherOrder) = true := by decide
+example : Accept {} false true [78, 69, 87] 0o022 (some 0o600) obsOtherOrder = false ∧
+    Accept {} false true [78, 69] 0o022 (some 0o640) obsOtherOrder = false := by decide
+-- overwrite=False: the destination appears just before the link, which then fails (EEXIST, a listed step): accepted
+-- as a FAILED save only
+example : Accept { overwrite := false } false false [78] 0o022 none
+    [.ok .noop, .ok (.openPart true true 0o666), .ok .noop, .ok (.write [78] 0), .ok .flush, .ok .fsync, .ok .close,
+     .appear, .fail true false false, .ok .unlinkPart] = true := by decide
 
 end C05
